@@ -128,6 +128,16 @@ func (C02) Run(tp *tape.Tape) core.Result {
 	if step("zq = (n, m) -> {\na = 0 - 1\nb = 0 - 1\nc = 0 - 1\nfor a, b, c <- fromto(0, n), fromto(10, 10 + m), fromto(20, 29) {\nwrite(toa(a) + toa(b) + toa(c) + \";\")\n}\n[a, b, c]\n}") {
 		goto done
 	}
+	// the value of a loop whose body never ran is nil, whatever the variables its body would assign
+	// hold; a body may assign its own loop variable (it is rebound from the iterator in the next
+	// round and keeps its last value after the loop); closure generators that re-read a captured
+	// variable after every yield, driven from the top level while the body calls other closures
+	if step("lr = (n, m) -> {\ns = 5\nfor i, j <- fromto(0, n), fromto(0, m) {\ns = s + i + j\n}\n}") ||
+		step("lq = (n) -> {\ns = 7\nt = 0\nfor i <- fromto(0, n) {\nt = i\nfor j <- fromto(0, i - 1) {\ns = s + j\n}\n}\n}") ||
+		step("lv = (n) -> {\nfor i <- fromto(0, n) {\nwrite(toa(i) + \";\")\nif i == 1 {\ni = i + 5\nwrite(toa(i) + \"!\")\n}\n}\ni\n}") ||
+		step("mkinc = (k) -> (x) -> x + k") || step("cgen = (b) -> () -> {\nyield b\nyield b + 1\nyield b * 2\n}") {
+		goto done
+	}
 	if step("gqa = 3") || step("gqb = 1") || step("gng = (n) -> {\ni = 0\nwhile i < gqa {\nwrite(\"Y\" + toa(i) + \";\")\nyield i + n\nwrite(\"R\" + toa(gqa) + \",\" + toa(gqb) + \";\")\ni = i + gqb\n}\n}") {
 		goto done
 	}
@@ -176,6 +186,20 @@ func (C02) Run(tp *tape.Tape) core.Result {
 				r.Inc("F8.loop_function_under_padding", 1)
 				if step(inner) {
 					goto done
+				}
+				continue
+			case k == 5:
+				r.Inc("F5.value_of_loop_that_never_ran_or_assigns_its_variable", 1)
+				v := []string{fmt.Sprintf("lr(%d, %d)", tp.Draw(3), tp.Draw(3)), fmt.Sprintf("lq(%d)", tp.Draw(4)), fmt.Sprintf("lv(%d)", tp.Draw(5)),
+					fmt.Sprintf("[lr(0, 2), lr(2, 0), lq(1), lv(%d)]", tp.Draw(4))}[tp.Draw(4)]
+				if step(v) {
+					goto done
+				}
+				if tp.Bool() { // a closure generator driven from the top level; the body calls another closure after each value
+					if step(fmt.Sprintf("qcg = cgen(%d)", 1+tp.Draw(9))) || step(fmt.Sprintf("qin = mkinc(%d)", 100+tp.Draw(9))) ||
+						step("for qa <- qcg() {\nwrite(toa(qa) + \",\" + toa(qin(qa)) + \";\")\n}") {
+						goto done
+					}
 				}
 				continue
 			case k == 4: // unequal lengths: which variables the incomplete last round still bound
